@@ -161,6 +161,17 @@ Theorem C15_stringSlice : forall h s n1 st n2 e, integral n1 st -> integral n2 e
 Proof. exact stringSlice_spec. Qed.
 Print Assumptions C15_stringSlice.
 
+(* stringSplit returns a fresh array of pieces whose join with the separator is the string; stringReplace is split-then-join *)
+Theorem C15_stringSplit_join : forall h s sep, sep <> [] ->
+  lib (U "stringSplit") [VStr s; VStr sep] h = (LOk (VArr (length h)), h ++ [CArr (map VStr (py_split s sep))])
+  /\ join_with sep (py_split s sep) = s.
+Proof. exact stringSplit_spec. Qed.
+Print Assumptions C15_stringSplit_join.
+Theorem C15_stringReplace_is_split_join : forall h s old new, old <> [] ->
+  lib (U "stringReplace") [VStr s; VStr old; VStr new] h = (LOk (VStr (join_with new (py_split s old))), h).
+Proof. exact stringReplace_spec. Qed.
+Print Assumptions C15_stringReplace_is_split_join.
+
 (* regexEscape(s), read as a literal pattern (unescaped non-metacharacters and backslash + non-alphanumeric), matches exactly s *)
 Theorem C15_regex_escape : forall s t, matches_lit (regex_escape s) t <-> t = s.
 Proof. exact regex_escape_exact. Qed.
